@@ -26,8 +26,9 @@ _CONTEXT = "context"
 _ORIGIN = "key_origin"
 _DELETED = "deleted_keys"
 _NAME = "name"
-_SENTINEL = "_NO_DEFAULT"
+_CLS = "processor_cls"
 _MAX_ATOMS = 10
+_BUILTIN_CALLS = {"getattr", "hasattr", "isinstance", "issubclass", "type", "str", "repr", "bool", "len", "print", "format", "id", "hash"}
 
 
 def _names(e: ast.AST) -> set:
@@ -144,6 +145,46 @@ def _canon(e: ast.AST) -> Tuple[ast.AST, bool]:
     return e, True
 
 
+def is_default_lookup(e: ast.AST) -> bool:
+    """The look-up of a parameter's declared default, found by its role and not by the helper's name: a call
+    that is handed the parameter's name and the processor class (argument or receiver) and neither the node
+    configuration nor the context."""
+    if not isinstance(e, ast.Call):
+        return False
+    fname = dotted_name(e.func) or ""
+    if not fname or fname in _BUILTIN_CALLS:
+        return False
+    args = list(e.args) + [k.value for k in e.keywords]
+    if any(isinstance(a, ast.Starred) for a in e.args) or any(k.arg is None for k in e.keywords):
+        return False
+    direct = [dotted_name(a) for a in args]
+    if _NAME not in direct:
+        return False
+    recv = fname.split(".")[0] if isinstance(e.func, ast.Attribute) else None
+    if _CLS not in direct and recv != _CLS:
+        return False
+    return not ({_CONFIG, _CONTEXT, _ORIGIN, _DELETED} & {x.id for a in args for x in ast.walk(a) if isinstance(x, ast.Name)})
+
+
+def default_lookups(e: ast.AST) -> List[ast.Call]:
+    """Every default look-up (`is_default_lookup`) inside *e*."""
+    return [x for x in ast.walk(e) if is_default_lookup(x)]
+
+
+def _sentinel_test(e: ast.AST) -> Optional[str]:
+    """`<default look-up> is not <S>` with S a plain (dotted) name: the name S, the no-default sentinel by role
+    (the object the looked-up default is compared with by identity)."""
+    if not (isinstance(e, ast.Compare) and len(e.ops) == 1 and isinstance(e.ops[0], (ast.Is, ast.IsNot))):
+        return None
+    a, b = e.left, e.comparators[0]
+    for call, other in ((a, b), (b, a)):
+        if is_default_lookup(call) and isinstance(other, (ast.Name, ast.Attribute)):
+            s = dotted_name(other)
+            if s and s.split(".")[0] not in (_NAME, _CLS, _CONFIG, _CONTEXT, _ORIGIN, _DELETED):
+                return s
+    return None
+
+
 def _membership_of_name(e: ast.AST, channel: str) -> bool:
     """`name in <channel>` / `name in <channel>.keys()`"""
     if not (isinstance(e, ast.Compare) and len(e.ops) == 1 and isinstance(e.ops[0], ast.In)):
@@ -156,9 +197,11 @@ def _membership_of_name(e: ast.AST, channel: str) -> bool:
     return dotted_name(c) == channel
 
 
-def classify_leaf(e: ast.AST) -> str:
+def classify_leaf(e: ast.AST, sentinels: Tuple[str, ...] = (), local: Tuple[str, ...] = ()) -> str:
     """Channel a (positive, resolved) guard atom consults, by the data it reads; `?` = reads the
-    channel but is not the plain presence test."""
+    channel but is not the plain presence test.  *sentinels*: names known (from other tests of the same
+    function) to play the no-default sentinel; *local*: names bound inside the function (a sentinel is a
+    module-level object, never a local or a parameter)."""
     names = _names(e)
     if _CONFIG in names:
         return "config" if _membership_of_name(e, _CONFIG) else "config?"
@@ -168,15 +211,10 @@ def classify_leaf(e: ast.AST) -> str:
         return "deleted" if _membership_of_name(e, _DELETED) else "context?"
     if _CONTEXT in names:
         return "context" if _membership_of_name(e, _CONTEXT) else "context?"
-    if _SENTINEL in names:
-        ok = isinstance(e, ast.Compare) and len(e.ops) == 1 and isinstance(e.ops[0], ast.IsNot)
-        if ok:
-            a, b = e.left, e.comparators[0]
-            other = b if dotted_name(a) == _SENTINEL else (a if dotted_name(b) == _SENTINEL else None)
-            ok = other is not None and isinstance(other, ast.Call) and (dotted_name(other.func) or "").endswith("_default_for") and any(dotted_name(x) == _NAME for x in list(other.args) + [k.value for k in other.keywords])
+    if default_lookups(e) or any(dotted_name(x) in sentinels for x in ast.walk(e) if isinstance(x, (ast.Name, ast.Attribute))):
+        s = _sentinel_test(e)
+        ok = s is not None and isinstance(e.ops[0], ast.IsNot) and s.split(".")[0] not in local
         return "default" if ok else "default?"
-    if "_default_for" in ast.unparse(e):
-        return "default?"
     return "other"
 
 
@@ -207,7 +245,7 @@ def classify_value(v: Optional[ast.AST], defs: Dict[str, ast.AST]) -> str:
         return "config"
     if _CONTEXT in names:
         return "context"
-    if "_default_for" in ast.unparse(r):
+    if default_lookups(r):
         return "default"
     if isinstance(r, ast.Constant):
         return f"const:{r.value!r}"
@@ -251,6 +289,16 @@ class _Tree:
             {x.id for n in walk_no_nested(fn) for x in ([n] if isinstance(n, ast.Name) else []) if isinstance(x.ctx, (ast.Store, ast.Del)) and x.id in (_NAME, _CONFIG, _CONTEXT, _ORIGIN, _DELETED, "processor_cls")}
         )
         self.body = [s for s in fn.body if not (isinstance(s, ast.Expr) and isinstance(s.value, ast.Constant))]
+        self.local: Tuple[str, ...] = tuple(sorted(_params(fn) | {x.id for x in walk_no_nested(fn) if isinstance(x, ast.Name) and isinstance(x.ctx, (ast.Store, ast.Del))}))
+        # the no-default sentinel, by role: whatever a looked-up default is compared with by identity somewhere in the body
+        self.sentinels: Tuple[str, ...] = ()
+        found: Set[str] = set()
+        for n in walk_no_nested(fn):
+            if isinstance(n, ast.Compare):
+                s_ = _sentinel_test(_resolved(n, self.defs))
+                if s_ is not None and s_.split(".")[0] not in self.local:
+                    found.add(s_)
+        self.sentinels = tuple(sorted(found))
         self._collect(self.body)
 
     # -- atoms
@@ -270,7 +318,7 @@ class _Tree:
             p, _pol = _canon(leaf)
             key = ast.unparse(p)
             if key not in self._keys:
-                self._keys[key] = classify_leaf(p)
+                self._keys[key] = classify_leaf(p, self.sentinels, self.local)
                 self.atoms.append((key, self._keys[key]))
 
     def _note_value(self, v: Optional[ast.AST]) -> None:
@@ -322,6 +370,11 @@ class _Tree:
             elif isinstance(st, (ast.Try, ast.With, ast.For, ast.While, ast.AsyncFor, ast.AsyncWith)) or st.__class__.__name__ in ("Match", "TryStar"):
                 return "compound"
         return None
+
+
+def sentinel_names(fn: ast.FunctionDef) -> Tuple[str, ...]:
+    """Names that play the no-default sentinel in *fn* (what a looked-up default is compared with by identity)."""
+    return _Tree(fn).sentinels
 
 
 def extract_chain(fn: ast.FunctionDef) -> List[Tuple[str, str]]:
